@@ -650,6 +650,25 @@ func monC13(c *child.Ctx, replay json.RawMessage) {
 				add(faultCase{Steps: mk(pos, []string{faultKinds[r.Intn(len(faultKinds))]}), TimeoutMs: uint(cfg[1]), WaitMs: uint(cfg[0]), Tolerant: true, Note: fmt.Sprintf("one fault after byte %d, retry pause %d ms, tolerance %d ms", pos, cfg[0], cfg[1])}, inside[pos])
 			}
 		}
+		// a long retry pause inside a long tolerance: the source is back at once, but the
+		// handler looks again only after 2.6 s - in the middle of a frame, which is then
+		// completed as if nothing had happened
+		if si == 0 || c.Thorough() && si%4 == 0 {
+			pos := 0
+			for p := range inside {
+				if inside[p] && p > 3 {
+					pos = p + 2
+					if pos >= len(inside) || !inside[pos] {
+						pos = p
+					}
+					break
+				}
+			}
+			if pos > 0 {
+				c.Count("scripts_with_a_retry_pause_of_seconds_inside_a_frame", 1)
+				add(faultCase{Steps: mk(pos, []string{faultKinds[r.Intn(len(faultKinds))]}), TimeoutMs: 7000, WaitMs: 2600, Tolerant: true, Note: fmt.Sprintf("one fault after byte %d (inside a frame), retry pause 2600 ms, tolerance 7000 ms", pos)}, true)
+			}
+		}
 		// ... and with that configuration a SECOND fault right after the pause means the
 		// source has been silent for longer than the tolerance: the handler stops there
 		if si%3 == 1 || c.Thorough() {
